@@ -189,6 +189,9 @@ func c19History(ops []c19Op, addrs map[uintptr]c19Addr, mu *sync.Mutex, who stri
 				}
 				continue
 			}
+			if tn, want := reflect.TypeOf(d).Elem().Name(), "DPT_"+strings.ReplaceAll(op.Name, ".", ""); tn != want {
+				return common.Failf("wrong-type", "%s: Produce(%q) at %s yields a %s, expected the type bearing that number (%s)", who, op.Name, what, tn, want)
+			}
 			if !deref(d).IsZero() {
 				return common.Failf("not-zero", "%s: Produce(%q) at %s yields the non-zero value %s (state leaked from an earlier instance)", who, op.Name, what, showDP(d))
 			}
@@ -239,6 +242,50 @@ func c19Run(p c19Plan) *common.Fail {
 		}
 	case "lookup":
 		return c19Lookup(p.Name)
+	case "hammer":
+		// G goroutines ask for (different) names back to back; every answer must be a fresh zero value of the named type
+		names := p.Ops[0]
+		g := len(p.Ops) - 1
+		n := 0
+		if g > 0 && len(p.Ops[1]) > 0 {
+			n = p.Ops[1][0].H
+		}
+		res := make([]*common.Fail, g)
+		var wg sync.WaitGroup
+		start := make(chan struct{})
+		for k := 0; k < g; k++ {
+			wg.Add(1)
+			go func(k int) {
+				defer wg.Done()
+				<-start
+				res[k] = common.Guard(func() *common.Fail {
+					for i := 0; i < n; i++ {
+						name := names[(i*7+k*3)%len(names)].Name
+						d, ok := dpt.Produce(name)
+						if !ok || d == nil {
+							return common.Failf("not-producible", "g%d: Produce(%q) failed under concurrency (call %d)", k, name, i)
+						}
+						if tn, want := reflect.TypeOf(d).Elem().Name(), "DPT_"+strings.ReplaceAll(name, ".", ""); tn != want {
+							return common.Failf("wrong-type", "g%d: call %d: Produce(%q) yields a %s while %d goroutines ask for %d different names concurrently", k, i, name, tn, g, len(names))
+						}
+						if !deref(d).IsZero() {
+							return common.Failf("not-zero", "g%d: call %d: Produce(%q) yields the non-zero value %s", k, i, name, showDP(d))
+						}
+						if i%64 == 0 && deref(d).CanSet() && deref(d).Kind() == reflect.Uint8 {
+							deref(d).SetUint(0xaa) // dirty the instance: nobody else may ever see it
+						}
+					}
+					return nil
+				})
+			}(k)
+		}
+		close(start)
+		wg.Wait()
+		for _, f := range res {
+			if f != nil {
+				return f
+			}
+		}
 	case "history", "concurrent":
 		addrs := map[uintptr]c19Addr{}
 		var mu sync.Mutex
@@ -390,6 +437,20 @@ func TestC19(t *testing.T) {
 	common.Drive(t, rec, func(rt *rapid.T) c19Plan {
 		var plan c19Plan
 		switch {
+		case rapid.IntRange(0, 9).Draw(rt, "hammer") == 0:
+			// ops[0] = the names, ops[1..g] = one (dummy) entry per goroutine carrying the call count
+			k := rapid.IntRange(2, 8).Draw(rt, "hammer-names")
+			var ns []c19Op
+			for i := 0; i < k; i++ {
+				ns = append(ns, c19Op{Op: "produce", Name: rapid.SampledFrom(names).Draw(rt, "hname")})
+			}
+			g := rapid.IntRange(2, 16).Draw(rt, "hammer-goroutines")
+			calls := rapid.SampledFrom([]int{2000, 10000, 30000}).Draw(rt, "hammer-calls")
+			plan = c19Plan{Mode: "hammer", Ops: [][]c19Op{ns}}
+			for i := 0; i < g; i++ {
+				plan.Ops = append(plan.Ops, []c19Op{{Op: "calls", H: calls}})
+			}
+			rec.ClassN("hammer-produce-calls", int64(g*calls))
 		case concurrent:
 			g := rapid.IntRange(2, 16).Draw(rt, "goroutines")
 			plan = c19Plan{Mode: "concurrent"}
